@@ -488,8 +488,12 @@ pub fn gen_string(rng: &mut Rng, cfg: &GenCfg, name: bool) -> String {
             }
         }
         1..=20 => rng.usize(1, 12),
-        21..=29 => rng.usize(13, 300),
-        30..=33 => 65535,
+        21..=23 => rng.usize(13, 300),
+        // lengths whose u16 prefix has "interesting" bytes (high byte 1, 2, 3, 4; all ones)
+        24..=26 => *rng.pick(&[255usize, 256, 257, 511, 512, 513, 600, 767, 768, 769, 1023, 1024, 1025]),
+        27..=29 => rng.usize(13, 1100),
+        30..=32 => 65535,
+        33 => *rng.pick(&[32767usize, 32768, 32769, 49152, 65280]),
         34 => 65534,
         35 => {
             if cfg.inexpressible {
@@ -582,6 +586,12 @@ pub fn gen_value(rng: &mut Rng, cfg: &GenCfg, depth: usize) -> V {
                 2 if depth + 1 >= cfg.max_depth => rng.usize(50, 300),
                 _ => rng.usize(1, cfg.max_children),
             };
+            if rng.chance(1, 60) {
+                // element counts around powers of two and beyond 16 bits, with cheap elements
+                let n = *rng.pick(&[255usize, 256, 257, 1023, 1024, 1025, 4095, 4096, 4097, 5000, 65535, 65536, 70_000]);
+                let cheap = [V::Null, V::Undef, V::Bool(true), V::Num(0x3FF0000000000000)];
+                return V::Arr((0..n).map(|i| cheap[(i + n) % 4].clone()).collect());
+            }
             V::Arr((0..n).map(|_| gen_value(rng, cfg, depth + 1)).collect())
         }
     }
